@@ -4,6 +4,7 @@
 use libfuzzer_sys::fuzz_target;
 
 fuzz_target!(|data: &[u8]| {
+    gbcheck::engine::fuzz_init();
     let s = String::from_utf8_lossy(data).to_string();
     if let Err(f) = gbcheck::checks::c20::fuzz_line(&s) {
         gbcheck::engine::fuzz_violation("C20", &f.sig, serde_json::json!({"kind": "line", "text": s}), &f.detail);
